@@ -89,3 +89,24 @@ func crossCheck(vcs []vcRec) CrossResult {
 	}
 	return cr
 }
+
+// intBlast decides a standalone script with cvc5's integer encoding of bit-vectors.
+func intBlast(script string, timeoutS int) string {
+	f, err := os.CreateTemp("", "gosym-ib-*.smt2")
+	if err != nil {
+		return "unknown"
+	}
+	defer os.Remove(f.Name())
+	f.WriteString("(set-logic ALL)\n" + script)
+	f.Close()
+	ctx, cancel := context.WithTimeout(context.Background(), time.Duration(timeoutS)*time.Second)
+	defer cancel()
+	out, _ := exec.CommandContext(ctx, "cvc5", "--solve-bv-as-int=sum", fmt.Sprintf("--tlimit=%d", timeoutS*1000), f.Name()).CombinedOutput()
+	for _, l := range strings.Split(string(out), "\n") {
+		l = strings.TrimSpace(l)
+		if l == "sat" || l == "unsat" {
+			return l
+		}
+	}
+	return "unknown"
+}
